@@ -12,6 +12,7 @@ Then runs every hlint property check on the patched copy and records which
 ones report a violation.  Writes /verif/seeded/<name>/{patch.diff, demo files, README.md, meta.json}.
 """
 import subprocess, os, shutil, tempfile, sys, json, re, glob
+ROOT=os.environ.get('VERIF_ROOT') or os.path.dirname(os.path.dirname(os.path.abspath(__file__)))
 
 ENV = dict(os.environ, GOFLAGS='-mod=mod', GOPROXY='off', GOSUMDB='off', GOTOOLCHAIN='local')
 PROPS = ['C%02d' % i for i in range(1, 18)]
@@ -91,8 +92,8 @@ def main():
         for p in PROPS:
             vd = tempfile.mkdtemp(prefix='/tmp/seedverif.')
             os.mkdir(vd + '/evidence')
-            shutil.copy('/verif/known_findings.json', vd)
-            o = subprocess.run(['/verif/bin/hlint', '-property', p, '-repo', d, '-verif', vd], capture_output=True, text=True).stdout
+            shutil.copy(ROOT+'/known_findings.json', vd)
+            o = subprocess.run([ROOT+'/bin/hlint', '-property', p, '-repo', d, '-verif', vd], capture_output=True, text=True).stdout
             hits = [l for l in o.splitlines() if l.startswith(('VIOLATED', 'UNDECIDED'))]
             if hits:
                 det[p] = [h[:300] for h in hits[:4]]
@@ -114,7 +115,7 @@ def main():
         print(res.get('demo_output_with_patch', '')[-600:])
         print(res.get('demo_output_without_patch', ''))
         sys.exit(1)
-    dst = os.path.join('/verif/seeded', name)
+    dst = os.path.join(ROOT,'seeded', name)
     os.makedirs(dst, exist_ok=True)
     shutil.copy(patch, dst)
     for f in glob.glob(os.path.join(seed, '*')):
